@@ -171,7 +171,10 @@ Definition sibling_pvals (i p : name) : result (list (mpath * pval)) :=
 (* what flatten_anonymous_bundle sees: every attribute after the references have been resolved *)
 Fixpoint to_anon (bx : bexpr) : result (anon pval) :=
   match bx with
-  | BXSx cx => Ok (ASig (PSx cx))
+  | BXSx cx => match bis_nc m cx with
+               | Some _ => Error ENoConn             (* "Invalid AnonymousBundle NoConn attribute" *)
+               | None => Ok (ASig (PSx cx))
+               end
   | BXInst b pre => r <- resolve_ref b pre ;; Ok (match r with inl v => ASig v | inr sc => AScope sc end)
   | BXAnon ms =>
       ms' <- (fix go (l : list (name * bexpr)) : result (list (string * anon pval)) :=
